@@ -110,6 +110,23 @@ def _case(args):
             pc = Lark(g, parser='lalr', lexer='contextual', use_bytes=use_bytes)
     except LarkError as e:
         return [{'build_error': type(e).__name__ + ': ' + str(e)[:80]}]
+    except AttributeError as e:
+        # region of known finding F28: interegular can parse none of the (>= 2) regexp terminals — decided here with interegular's public parser
+        if "_know_pairs" in str(e):
+            try:
+                import interegular
+                rx = re.findall(r'^[A-Z_0-9]+(?:\.-?\d+)?: (/(?:\\.|[^/])*/[imslux]*)[ \t]*$', g, re.M)      # (a literal may span lines)
+                def parses(lit):
+                    body, flags = lit[1:].rsplit('/', 1)
+                    try:
+                        interegular.parse_pattern(('(?%s:%s)' % (flags, body)) if flags else body); return True
+                    except Exception:
+                        return False
+                if len(rx) >= 2 and not any(parses(x) for x in rx):
+                    return [{'build_error': 'F28 region'}]
+            except ImportError:
+                pass
+        raise
     names = [t.name for t in pb.terminals]
     idx = {n: i for i, n in enumerate(names)}
     import io
@@ -179,6 +196,17 @@ def _case(args):
 
 
 def run(ctx, res):
+    for f in ctx['known']:
+        if f['id'] == 'F28' and f['status'] == 'open':
+            from lark import Lark
+            w = f['witness']
+            try:
+                Lark(w['grammar'], parser='lalr', lexer='basic')
+            except AttributeError as e:
+                if '_know_pairs' in str(e):
+                    res.known_hits.append(('F28', '%s: %r' % (f['what'], w['grammar'])))
+                else:
+                    raise
     rng = random.Random(ctx['seed'] * 1000003 + 7)
     tier = ctx['tier']
     mult = 3 if ctx['deepen'] else 1
@@ -199,7 +227,7 @@ def run(ctx, res):
             continue
         for rec in recs:
             if 'build_error' in rec:
-                res.count('build_error'); continue
+                res.count('build_error' if rec['build_error'] != 'F28 region' else 'skipped_region_of_F28'); continue
             tab = rec.pop('tab')
             cases.append(dict(tab, op='lex', mode='basic')); meta.append((job, rec, 'basic'))
             cases.append(dict(tab, op='lex', mode='ctx', subsets=rec['ctx']['subsets'])); meta.append((job, rec, 'ctx'))
